@@ -96,7 +96,7 @@ pub fn text<P: PT>(a: u64, l: &mut Local) -> Result<(), Viol> {
 
 pub fn run(rep: &mut Report) {
     let tier = rep.cfg.tier;
-    rep.rule = "every posit pattern a: to_f64 (and Into<f64>) bits equal the exact value from the independent decoder (NaR -> NaN, 0 -> +0.0); to_f32 equals the IEEE RNE of that value (asserted exact for P8/P16); from_f64 / From<f64> of the reference f64 returns a; Display then FromStr returns a. P8, P16: all patterns. P32: quick = proptest structured bits + strided scan, thorough = all 2^32 patterns for the float parts and a 2^26 strided scan for text. Non-trivial = real non-zero pattern; distinct patterns."
+    rep.rule = "every posit pattern a: to_f64 (and Into<f64>) bits equal the exact value from the independent decoder (NaR -> NaN, 0 -> +0.0); to_f32 equals the IEEE RNE of that value (asserted exact for P8/P16); from_f64 / From<f64> of the reference f64 returns a; Display then FromStr returns a. P8, P16: all patterns. P32: all 2^32 patterns for the float parts in both tiers, proptest structured bits, and a strided scan for text (every 512th quick / 64th thorough). Non-trivial = real non-zero pattern; distinct patterns."
         .into();
     rep.assumptions = {
         let mut a = std_assumptions();
@@ -110,8 +110,9 @@ pub fn run(rep: &mut Report) {
     rep.generated("P32E2 structured bits: floats + text", g, || gen::bits(32), |&a, l| floats::<P32E2>(a, l).and_then(|_| text::<P32E2>(a, l)));
     match tier {
         Tier::Quick => {
-            let off = rep.cfg.seed % 2;
-            rep.lattice("P32E2 every 2nd pattern: to_f64, to_f32, f64 round trip", 1 << 31, move |i, l| floats::<P32E2>(i * 2 + off, l));
+            // complete in both tiers: a sticky mask one bit short fails on odd patterns only, and a strided
+            // enumeration with a seed-dependent offset would make the verdict depend on the seed
+            rep.exhaustive("P32E2 all 2^32 patterns: to_f64, to_f32, f64 round trip", 1 << 32, |i, l| floats::<P32E2>(i, l));
             let off = rep.cfg.seed % 512;
             rep.lattice("P32E2 every 512th pattern: Display/FromStr round trip", 1 << 23, move |i, l| text::<P32E2>(i * 512 + off, l));
         }
